@@ -12,19 +12,36 @@ namespace Otel.C02.Drv
 def parseTemp (c : Char) : Option Temporality :=
   if c == 'd' then some .delta else if c == 'c' then some .cumulative else none
 
-def parseReader (s : String) : Option ReaderCfg :=
-  match s.toList with
-  | [k, a, b] => do
-    let tc ← parseTemp a
-    let tu ← parseTemp b
-    if k == 'm' then pure ⟨false, tc, tu⟩ else if k == 'p' then pure ⟨true, tc, tu⟩ else none
-  | _ => none
-
 def parseInst (s : String) : Option InstCfg :=
   match s.toList with
   | [n, k] =>
     if (n == 'i' || n == 'f') && (k == 'c' || k == 'u') then some ⟨n == 'f', k == 'u'⟩ else none
   | _ => none
+
+def parseRej (c : Char) : Option Rej :=
+  match c with
+  | '-' => some .none | 'u' => some .rejUpdown | 'c' => some .rejCounter | 'b' => some .rejBoth | 'D' => some .dropUpdown
+  | _ => none
+
+/-- `<m|p><d|c><d|c>[<rej>]` -/
+def parseReader (s : String) : Option ReaderCfg :=
+  let mk := fun (k a b : Char) (rj : Rej) => do
+    let tc ← parseTemp a
+    let tu ← parseTemp b
+    if k == 'm' then pure (⟨false, tc, tu, rj⟩ : ReaderCfg) else if k == 'p' then pure ⟨true, tc, tu, rj⟩ else none
+  match s.toList with
+  | [k, a, b] => mk k a b .none
+  | [k, a, b, r] => do mk k a b (← parseRej r)
+  | _ => none
+
+/-- `<inst>,<inst>…[+cb][+to]` : instruments, flag "an observable instrument with a callback exists", flag "the
+periodic reader has a short timeout" (no effect on the model) -/
+def parseInsts (s : String) : Option (List InstCfg × Bool) :=
+  match s.splitOn "+" with
+  | is :: flags => do
+    let l ← (is.splitOn ",").mapM parseInst
+    if flags.all (fun f => f == "cb" || f == "to") then pure (l, flags.contains "cb") else none
+  | [] => none
 
 def parseOp : List String → Option Op
   | ["add", j, a, v] => do pure (.add (← parseNat j) (← parseNat a) (← parseInt v))
@@ -33,6 +50,11 @@ def parseOp : List String → Option Op
   | ["flush"] => some .flush
   | ["shut"] => some .shut
   | ["rshut", r] => do pure (.rshut (← parseNat r))
+  | ["collectx", r, k] => do pure (.colx (← parseNat r) (← parseNat k))
+  | ["collectc", r] => do pure (.colc (← parseNat r))
+  | ["collectb", r] => do pure (.colb (← parseNat r))
+  | ["tickx", r, k] => do pure (.tickx (← parseNat r) (← parseNat k))
+  | ["flushx", k] => do pure (.flushx (← parseNat k))
   | _ => none
 
 /-- split a token list at `|` tokens (empty groups dropped) -/
@@ -104,6 +126,8 @@ def seqOracle (rs : List ReaderCfg) (is : List InstCfg) (ops : List Op) (recs : 
           | some ic =>
             let tp := tempFor rcfg ic
             let report := reportOf rc j
+            -- a reader that rejected (or dropped) the instrument reports nothing for it
+            if absent rcfg ic then report.isEmpty && !(rc.streams.any fun st => st.1 == j) else
             let measured := (ops.take rc.op).filterMap fun op =>
               match op with
               | .add j' a v => if j' == j then some (a, v) else none
@@ -149,6 +173,9 @@ def concCell (rs : List ReaderCfg) (is : List InstCfg) (G rep : Nat) (recs model
   | some rcfg, some ic =>
     let mine : List Rec := recs.filter fun rc => rc.reader == r
     let reports : List (List (Attr × Int)) := mine.map (reportOf · j)
+    if absent rcfg ic then
+      let nothing := reports.all (·.isEmpty) && !(mine.any fun rc => rc.streams.any fun st => st.1 == j)
+      (nothing, nothing) else
     let finals : List (List (Attr × Int)) := (mine.filter fun rc => rc.op == 1000 + r).map (reportOf · j)
     match tempFor rcfg ic with
     | .delta =>
@@ -189,9 +216,9 @@ def stepLine (_ : Unit) (toks : List String) : Unit × Option Verdict :=
   | "seq" :: _ :: rstr :: istr :: rest =>
     let r : Option Verdict := do
       let rs ← (rstr.splitOn ",").mapM parseReader
-      let is ← (istr.splitOn ",").mapM parseInst
+      let (is, hasCb) ← parseInsts istr
       let ops ← (splitBar rest).mapM parseOp
-      let model := (Sys.run rs is ops).recs
+      let model := (Sys.run rs is ops hasCb).recs
       let mstr := model.map renderRec
       match obs.mapM parseRec with
       | none => pure { agree := false, spec := "FAIL", nontrivial := false, branches := "unparsed-observation", model := " ".intercalate mstr }
@@ -204,9 +231,14 @@ def stepLine (_ : Unit) (toks : List String) : Unit × Option Verdict :=
         let shut := ops.any fun op => match op with | .shut => true | .rshut _ => true | _ => false
         let flush := ops.any fun op => match op with | .flush => true | _ => false
         let multi := model.any fun rc => rc.streams.any fun st => st.2.2.2.length > 1
+        let midCancel := ops.any fun op => match op with | .colx _ _ => true | .tickx _ _ => true | .flushx _ => true | _ => false
+        let preCancel := ops.any fun op => match op with | .colc _ => true | .colb _ => true | _ => false
+        let rejecting := rs.any fun rc => is.any fun ic => absent rc ic
         let tags := tagIf hasDelta "delta" ++ tagIf hasCum "cumulative" ++ tagIf periodicRec "periodic" ++
-          tagIf errRec "collect-after-shutdown" ++ tagIf shut "shutdown" ++ tagIf flush "flush" ++ tagIf multi "multi-attr" ++
-          tagIf (rs.length > 1) "multi-reader"
+          tagIf (errRec && shut) "collect-after-shutdown" ++ tagIf shut "shutdown" ++ tagIf flush "flush" ++ tagIf multi "multi-attr" ++
+          tagIf (rs.length > 1) "multi-reader" ++ tagIf midCancel "cancel-during-aggregation" ++
+          tagIf (preCancel && hasCb && errRec) "abandoned-before-aggregation" ++ tagIf (preCancel && !hasCb) "cancelled-ctx-ignored" ++
+          tagIf rejecting "absent-stream"
         pure { agree := mstr == obs, spec := if spec then "ok" else "FAIL",
                nontrivial := model.any (fun rc => !rc.streams.isEmpty),
                branches := if tags.isEmpty then "-" else ",".intercalate tags,
@@ -215,7 +247,7 @@ def stepLine (_ : Unit) (toks : List String) : Unit × Option Verdict :=
   | ["conc", _, rstr, istr, g, rep, a, _] =>
     let r : Option Verdict := do
       let rs ← (rstr.splitOn ",").mapM parseReader
-      let is ← (istr.splitOn ",").mapM parseInst
+      let (is, _) ← parseInsts istr
       let G ← parseNat g
       let rep ← parseNat rep
       let A ← parseNat a
@@ -224,7 +256,8 @@ def stepLine (_ : Unit) (toks : List String) : Unit × Option Verdict :=
       | some recs =>
         let (agree, spec) := concCheck rs is G rep A recs
         let nrec := recs.length
-        let tags := ["conc"] ++ tagIf (rs.any (·.periodic)) "periodic" ++ tagIf (nrec > 2 * rs.length) "racing-collections"
+        let tags := ["conc"] ++ tagIf (rs.any (·.periodic)) "periodic" ++ tagIf (nrec > 2 * rs.length) "racing-collections" ++
+          tagIf (rs.any fun rc => is.any fun ic => absent rc ic) "absent-stream"
         pure { agree := agree, spec := if spec then "ok" else "FAIL", nontrivial := nrec > rs.length,
                branches := ",".intercalate tags, model := s!"records={nrec}" }
     ((), r)
